@@ -444,7 +444,7 @@ _reg(Profile(name="stack_tiny", tmax_choices=(4, 6, 8, 12, 20), n_ranks=(1, 2), 
              p_launch=0.2, device="fifo", p_nonevents=0.2))
 _reg(Profile(name="stack_nozero", tmax_choices=(4, 6, 8, 12, 20, 110), n_ranks=(1, 2), n_threads=(1, 3), max_depth=5, max_children=4, p_zero_dur=0.0,
              p_identical=0.25, p_launch=0.2, device="fifo", p_kernel_zero=0.0, p_nonevents=0.2))
-_reg(Profile(name="cgraph", tmax_choices=(12, 24, 40, 110), n_ranks=(1, 2), n_threads=(1, 3), max_depth=4, p_zero_dur=0.0, p_launch=0.5, p_missing_kernel=0.15,
+_reg(Profile(name="cgraph", tmax_choices=(12, 24, 40, 110), n_ranks=(1, 2), n_threads=(1, 3), max_depth=4, p_zero_dur=0.0, p_launch=0.5, p_missing_kernel=0.15, p_sync=0.25,
              p_orphan_kernel=0.2, n_steps=(0, 3), p_kernel_zero=0.05, epoch_choices=(0, 1000000, 1700000000000000)))
 _reg(Profile(name="cgraph_bwd", tmax_choices=(24, 40, 110), n_ranks=(1, 2), n_threads=(2, 2), max_depth=3, p_zero_dur=0.0, p_launch=0.5, n_steps=(1, 3),
              p_bwd_thread=0.9, epoch_choices=(0, 1000000)))
